@@ -27,6 +27,7 @@ type LabOpts struct {
 }
 
 type Lab struct {
+	Trim   *Program // the same sources built with -trimpath (nil when not built)
 	P      *Program
 	PkgDir string
 	Src    string // package source dir
@@ -47,7 +48,7 @@ func (l *Lab) Wipe() {
 	}
 }
 
-var subNames = []string{"b", "c d", "x1", "zz", "Sub10", "Sub2", "b1", "ü"}
+var subNames = []string{"b", "c d", "x1", "zz", "Sub10", "Sub2", "b1", "ü", "v1", "v01", "1.0", "1.00"}
 
 func tName(s string) string { return strings.ReplaceAll(s, " ", "_") }
 
